@@ -226,11 +226,42 @@ func one(run *vk.Run, cfg string, st *stores.Opened, offs []ebu.Offset, batch, L
 	var got []int
 	cancelledAt := -1
 	nested, nestedBad := false, ""
-	err := bus.Replay(ctx, offs[start], func(e *ebu.StoredEvent) error {
+	// every other case replays through ReplayWithUpcast, with an upcaster for one of the two stored
+	// types that renames some events and fails for the others: the same events reach the callback,
+	// once each, in the same order
+	replay := bus.Replay
+	upcasting := false
+	wrongType := ""
+	if (L+start+batch+len(f.Kind))%2 == 0 {
+		upcasting = true
+		bus.SetUpcastErrorHandler(func(string, json.RawMessage, error) {})
+		ebu.RegisterUpcastFunc(bus, "c11.B", "c11.B.v2", func(d json.RawMessage) (json.RawMessage, string, error) {
+			var x struct{ ID int }
+			json.Unmarshal(d, &x)
+			if x.ID%2 == 0 {
+				return nil, "", errors.New("verif: this one cannot be upcast")
+			}
+			return d, "c11.B.v2", nil
+		})
+		replay = bus.ReplayWithUpcast
+	}
+	err := replay(ctx, offs[start], func(e *ebu.StoredEvent) error {
 		var d struct{ ID int }
 		json.Unmarshal(e.Data, &d)
 		got = append(got, d.ID)
 		n := len(got)
+		// the event is handed out under the type it was stored with (a plain replay reads, it never
+		// rewrites), or under the upcast type where the registered upcaster applies
+		wantType := "c11.A"
+		if d.ID%3 == 0 {
+			wantType = "c11.B"
+			if upcasting && d.ID%2 == 1 {
+				wantType = "c11.B.v2"
+			}
+		}
+		if e.Type != wantType && wrongType == "" {
+			wrongType = fmt.Sprintf("event %d was handed out as %q, want %q", d.ID, e.Type, wantType)
+		}
 		if f.Kind == "cb-error" && n == f.K {
 			return errCB
 		}
@@ -290,6 +321,10 @@ func one(run *vk.Run, cfg string, st *stores.Opened, offs []ebu.Offset, batch, L
 	if nestedBad != "" {
 		desc += "; " + nestedBad
 		viol("reentrant-replay-from-callback")
+	}
+	if wrongType != "" {
+		desc += "; " + wrongType
+		viol("event-type-changed")
 	}
 	// 1. gap-free, duplicate-free, in-order prefix of the suffix after the start offset
 	for i, id := range got {
